@@ -97,7 +97,12 @@ def written_values(report, tier):
         if not vec["hook"]:
             continue  # one job per (field, cell); the hook verdict is measured
         if vec["fld"]["fmt"] == "fixed" and len(vec["cell"]) > vec["fld"]["length"][0][0][0]:
-            continue  # longer than the field: refused, nothing is padded (Session.tla, cell class "grd")
+            # longer than the field (Session.tla, cell class "grd"): refused whatever it is made of -- blanks in front of or
+            # behind a value that would fit count -- and nothing is written for it
+            overlong = dict(vec)
+            overlong["padded"] = vec["cell"]
+            jobs.append((overlong, {True: ["reject", "length"], False: ["reject", "length"]}))
+            continue
         predicted = verdicts.get(core.json.dumps([vec["fld"], vec["padded"]], sort_keys=True))
         if predicted is None:
             continue  # the padded cell is longer than the cells explored
